@@ -220,7 +220,9 @@ class Automaton:
         if ph == "Sleep" and col != "W":
             # a live object that is not White when a cycle starts is never traced (safety, S3); a value-less shell
             # that is not White is merely never released (reclamation, S3r)
-            self.problems.append(("S3" if live == 1 else "S3r", "state",
+            # WhiteWeak at the start of a cycle is treated like White by strong tracing (no safety problem); the
+            # object is merely kept one cycle longer as a shell if it turns out unreachable (reclamation)
+            self.problems.append(("S3" if (live == 1 and col != "WW") else "S3r", "state",
                                   "%s is %s while the collector sleeps: the next cycle does not start clean" % (
                                       "object" if live == 1 else "shell", col), self.path_to(s) + [str(s)]))
 
